@@ -94,6 +94,11 @@ theorem authorises_of_consents {s : State} {ids : List ScopeId} {st : StepInfo} 
   cases hk : st.kind with
   | send => rw [hk] at hc; simp only [Consents] at hc; simp [hc]
   | env => rw [hk] at hc; exact absurd hc (by simp [Consents])
+  | fill oid =>
+    rw [hk] at hc
+    obtain ⟨o, ho, h1, h2⟩ := hc
+    simp only [observe, List.any_eq_true]
+    exact ⟨o, ho, by simp [h1, h2]⟩
   | mwithdraw =>
     rw [hk] at hc
     obtain ⟨m, hm, x, hx, h1⟩ := hc
